@@ -1360,11 +1360,17 @@ class ParmapperAsync(Iterable):
         self._fifo_capacity = self._concurrency * 2
 
     def __iter__(self):
-        def _do_async(to_stop, loop):
+        def _do_async(to_stop, loop, ready):
             async def main(to_stop):
                 async with contextlib.AsyncExitStack() as stack:
-                    for cm in self._async_context.values():
-                        await stack.enter_async_context(cm)
+                    try:
+                        for cm in self._async_context.values():
+                            await stack.enter_async_context(cm)
+                    except BaseException as e:
+                        # Hand the failure to the consumer; nothing will run in this loop.
+                        ready.set_exception(e)
+                        return
+                    ready.set_result(None)
                     while True:
                         if to_stop.is_set():
                             break
@@ -1374,9 +1380,10 @@ class ParmapperAsync(Iterable):
 
         loop = asyncio.new_event_loop()
         to_stop = threading.Event()
+        ready = concurrent.futures.Future()
         worker = Thread(
             target=_do_async,
-            args=(to_stop, loop),
+            args=(to_stop, loop, ready),
             name=self._name,
         )
         worker.start()
@@ -1388,6 +1395,9 @@ class ParmapperAsync(Iterable):
             )
 
         try:
+            # Wait until the context managers have been entered.
+            # If that failed, the exception is raised here.
+            ready.result()
             yield from fifo_stream(
                 self._instream,
                 func,
